@@ -7,6 +7,7 @@ import DtnVerif.Model.Udpcl
 import DtnVerif.Lemmas.UdpclSend
 import DtnVerif.Lemmas.UdpclRecv
 import DtnVerif.Lemmas.UdpclDgram
+import DtnVerif.Lemmas.UdpclQueue
 import DtnVerif.Generated.Facts
 namespace DtnVerif
 namespace Udpcl
@@ -377,6 +378,158 @@ theorem C13_end_to_end (id : Nat) (data : Bytes) (mtu : Nat) (addr : String) (po
     | cons q qs ih => simp only [List.map_cons, kev_self, ih]
   exact (C13_reasm_perm data ⟨addr, port, id⟩ ps _ s0 h0 hc hcat (fun p hp => (hall p hp).1) hne
     (by rw [hkev]; exact hperm.map _)).1
+
+/-! ## Receive-queue ids (`_rx_id`, `recv_bundle_get_queue`, `recv_bundle_pop_data`) -/
+
+private theorem foldl_idsOK : ∀ (ops : List Op) (s : Rx), IdsOK s → IdsOK (ops.foldl opStep s) := by
+  intro ops
+  induction ops with
+  | nil => intro s h; exact h
+  | cons op ops ih => intro s h; exact ih _ (opStep_idsOK s op h).1
+
+private theorem idsOK_init : IdsOK Rx.init :=
+  ⟨(fun e he => by cases he), List.Pairwise.nil⟩
+
+/-- Whatever datagrams arrive and whatever the application pops, in any order: the queued ids
+    are all below the counter and strictly increase along the queue — every bundle is announced
+    under an id of its own. -/
+theorem C13_rx_ids_distinct (ops : List Op) :
+    (queueIds (ops.foldl opStep Rx.init)).Pairwise (· < ·) ∧
+    ∀ i ∈ queueIds (ops.foldl opStep Rx.init), i < (ops.foldl opStep Rx.init).rxId := by
+  obtain ⟨h1, h2⟩ := foldl_idsOK ops Rx.init idsOK_init
+  refine ⟨by simpa [queueIds, List.pairwise_map] using h2, ?_⟩
+  intro i hi
+  obtain ⟨e, he, rfl⟩ := List.mem_map.mp hi
+  exact h1 e he
+
+/-- Hence `_rx_queue[id] = item` never replaces an entry: in every reachable state the dict
+    assignment under the next id is an append (what `addRx` does). -/
+theorem C13_rx_never_overwrites (ops : List Op) (q : QItem) :
+    dictSet (ops.foldl opStep Rx.init).rxId q (ops.foldl opStep Rx.init).queue =
+      (addRx (ops.foldl opStep Rx.init) q).queue := by
+  obtain ⟨h1, _⟩ := foldl_idsOK ops Rx.init idsOK_init
+  rw [dictSet_fresh _ _ _ (fun e he => by have := h1 e he; omega)]
+  rfl
+
+/-- An id is never used again, not even after it was popped: whatever is queued after further
+    operations was either queued before or got an id at or above the earlier counter (and all ids
+    announced earlier are below it). -/
+theorem C13_rx_id_never_reused (ops more : List Op) :
+    (ops.foldl opStep Rx.init).rxId ≤ ((ops ++ more).foldl opStep Rx.init).rxId ∧
+    ∀ e ∈ ((ops ++ more).foldl opStep Rx.init).queue,
+      e ∈ (ops.foldl opStep Rx.init).queue ∨ (ops.foldl opStep Rx.init).rxId ≤ e.1 := by
+  rw [List.foldl_append]
+  generalize ops.foldl opStep Rx.init = s
+  have key : ∀ (more : List Op) (t : Rx), s.rxId ≤ t.rxId →
+      (∀ e ∈ t.queue, e ∈ s.queue ∨ s.rxId ≤ e.1) →
+      s.rxId ≤ (more.foldl opStep t).rxId ∧
+      ∀ e ∈ (more.foldl opStep t).queue, e ∈ s.queue ∨ s.rxId ≤ e.1 := by
+    intro more
+    induction more with
+    | nil => intro t h1 h2; exact ⟨h1, h2⟩
+    | cons op more ih =>
+      intro t h1 h2
+      apply ih
+      · cases op with
+        | dgram rej addr port data =>
+          have := (recvDatagram_ext rej t addr port data).1
+          simp only [opStep]; omega
+        | pop bid =>
+          simp only [opStep]
+          cases hp : popData t bid with
+          | none => exact h1
+          | some p =>
+            unfold popData at hp
+            cases hf : t.queue.find? (fun q => q.1 == bid) with
+            | none => rw [hf] at hp; cases hp
+            | some q =>
+              rw [hf] at hp
+              simp only [Option.some.injEq] at hp
+              rw [← hp]; exact h1
+      · intro e he
+        cases op with
+        | dgram rej addr port data =>
+          obtain ⟨_, ex, hq, hb, _⟩ := recvDatagram_ext rej t addr port data
+          simp only [opStep] at he
+          rw [hq] at he
+          rcases List.mem_append.mp he with h | h
+          · exact h2 e h
+          · right; have := (hb e h).1; omega
+        | pop bid =>
+          simp only [opStep] at he
+          cases hp : popData t bid with
+          | none => rw [hp] at he; exact h2 e he
+          | some p =>
+            rw [hp] at he
+            unfold popData at hp
+            cases hf : t.queue.find? (fun q => q.1 == bid) with
+            | none => rw [hf] at hp; cases hp
+            | some q =>
+              rw [hf] at hp
+              simp only [Option.some.injEq] at hp
+              rw [← hp] at he
+              exact h2 e (List.mem_filter.mp he).1
+  exact key more s (Nat.le_refl _) (fun e he => Or.inl he)
+
+private theorem pairwise_unique : ∀ (l : List (Nat × QItem)), l.Pairwise (fun a b => a.1 < b.1) →
+    ∀ x ∈ l, ∀ y ∈ l, x.1 = y.1 → x = y := by
+  intro l
+  induction l with
+  | nil => intro _ x hx; cases hx
+  | cons a l ih =>
+    intro hp x hx y hy hxy
+    rw [List.pairwise_cons] at hp
+    rcases List.mem_cons.mp hx with hxa | hxl
+    · rcases List.mem_cons.mp hy with hya | hyl
+      · rw [hxa, hya]
+      · have := hp.1 y hyl; rw [hxa] at hxy; omega
+    · rcases List.mem_cons.mp hy with hya | hyl
+      · have := hp.1 x hxl; rw [hya] at hxy; omega
+      · exact ih hp.2 x hxl y hyl hxy
+
+/-- Popping a queued id returns exactly the data announced under that id, once: the entry is
+    gone afterwards (a second pop is a `KeyError`), every other entry stays, and the queue lists
+    exactly the other ids. -/
+theorem C13_pop_exact (ops : List Op) (bid : Nat) (q : QItem)
+    (hm : (bid, q) ∈ (ops.foldl opStep Rx.init).queue) :
+    ∃ s', popData (ops.foldl opStep Rx.init) bid = some (q.data, s') ∧
+      popData s' bid = none ∧
+      queueIds s' = (queueIds (ops.foldl opStep Rx.init)).filter (· != bid) ∧
+      ∀ e ∈ (ops.foldl opStep Rx.init).queue, e.1 ≠ bid → e ∈ s'.queue := by
+  obtain ⟨_, h2⟩ := foldl_idsOK ops Rx.init idsOK_init
+  generalize ops.foldl opStep Rx.init = s at hm h2
+  have hfind : ∃ e, s.queue.find? (fun q => q.1 == bid) = some e := by
+    cases hf : s.queue.find? (fun q => q.1 == bid) with
+    | some e => exact ⟨e, rfl⟩
+    | none =>
+      have := List.find?_eq_none.mp hf (bid, q) hm
+      simp at this
+  obtain ⟨e, he⟩ := hfind
+  have hemem := List.mem_of_find?_eq_some he
+  have heid : e.1 = bid := by simpa using List.find?_some he
+  have : e = (bid, q) := pairwise_unique s.queue h2 e hemem (bid, q) hm heid
+  subst this
+  refine ⟨{ s with queue := s.queue.filter (fun q => q.1 != bid) }, ?_, ?_, ?_, ?_⟩
+  · simp only [popData, he]
+  · simp only [popData]
+    have : (s.queue.filter (fun q => q.1 != bid)).find? (fun q => q.1 == bid) = none := by
+      rw [List.find?_eq_none]
+      intro x hx
+      have := (List.mem_filter.mp hx).2
+      simp at this ⊢; exact this
+    rw [this]
+  · simp only [queueIds, List.filter_map]
+    congr 1
+  · intro x hx hne
+    exact List.mem_filter.mpr ⟨hx, by simpa using hne⟩
+
+/-- two bundles in one datagram and a third one later, from another peer: ids 0, 1, 2; popping 1
+    gives the second bundle and leaves 0 and 2 -/
+example : (queueIds ([Op.dgram false "10.0.0.2" 4556 [0x82, 1, 2, 0x81, 3],
+      Op.dgram false "10.0.0.3" 4556 [0x80], Op.pop 1].foldl opStep Rx.init) = [0, 2]) ∧
+    ((popData ([Op.dgram false "10.0.0.2" 4556 [0x82, 1, 2, 0x81, 3],
+      Op.dgram false "10.0.0.3" 4556 [0x80]].foldl opStep Rx.init) 1).map (·.1) = some [0x81, 3]) := by
+  decide
 
 /-! ## Confirmation ranges -/
 
